@@ -16,7 +16,8 @@ type ValGen struct {
 	cells  map[string][]string // type string -> labels of cells built so far in this value (for sharing)
 	Poison map[string]bool     // basic payloads that make fallible custom functions fail
 	// Mode: 0 = zero/nil everywhere, 1 = non-nil and minimal, 2 = non-nil containers with two elements whose inner
-	// pointers alternate between nil and non-nil (nil leaves inside live containers), 3.. = random
+	// pointers alternate between nil and non-nil (nil leaves inside live containers), 3 = every slice and map non-nil and
+	// EMPTY (pointers non-nil), 4.. = random
 	Mode     int
 	alt      int
 	MaxDepth int
@@ -86,6 +87,9 @@ func (g *ValGen) basic(b *types.Basic, named *types.Named) *sx.Node {
 	return sx.H("b", sx.S("0"))
 }
 
+// ForgetCells makes the values generated from now on share nothing with those generated before (labels stay unique).
+func (g *ValGen) ForgetCells() { g.cells = map[string][]string{} }
+
 // Value generates one value of type t.
 func (g *ValGen) Value(t types.Type) *sx.Node {
 	if g.cells == nil {
@@ -103,7 +107,7 @@ func (g *ValGen) val(t types.Type, depth int) *sx.Node {
 	if n, ok := t.(*types.Named); ok {
 		named = n
 	}
-	nilable := g.Mode == 0 || depth >= g.MaxDepth || (g.Mode >= 3 && g.R.Chance(22))
+	nilable := g.Mode == 0 || depth >= g.MaxDepth || (g.Mode >= 4 && g.R.Chance(22))
 	if g.Mode == 2 && depth >= 1 && depth < g.MaxDepth {
 		if _, isPtr := t.Underlying().(*types.Pointer); isPtr {
 			g.alt++
@@ -112,7 +116,7 @@ func (g *ValGen) val(t types.Type, depth int) *sx.Node {
 	}
 	reuse := func(kind string) *sx.Node {
 		ls := g.cells[t.String()]
-		if g.Mode >= 3 && len(ls) > 0 && g.R.Chance(g.Share) {
+		if g.Mode >= 4 && len(ls) > 0 && g.R.Chance(g.Share) {
 			_ = kind
 			return sx.H("ref", sx.A(rng.Pick(g.R, ls)))
 		}
@@ -144,7 +148,10 @@ func (g *ValGen) val(t types.Type, depth int) *sx.Node {
 		if g.Mode == 2 {
 			n = 2
 		}
-		if g.Mode >= 3 {
+		if g.Mode == 3 {
+			n = 0
+		}
+		if g.Mode >= 4 {
 			n = g.R.Intn(4)
 		}
 		out := sx.H("sl", sx.A(l))
@@ -170,7 +177,10 @@ func (g *ValGen) val(t types.Type, depth int) *sx.Node {
 		if g.Mode == 2 {
 			n = 2
 		}
-		if g.Mode >= 3 {
+		if g.Mode == 3 {
+			n = 0
+		}
+		if g.Mode >= 4 {
 			n = g.R.Intn(3)
 		}
 		out := sx.H("mp", sx.A(l))
